@@ -148,6 +148,11 @@ class StrEval:
             if base == 'empty' and obj is not None: return self.s(obj) == ''
             if n.ck == 'op' and n.op in ('==', '!=') and len(args) == 2:
                 a, bb = self.s(args[0]), self.s(args[1]); return (a == bb) if n.op == '==' else (a != bb)
+            if base in ('isalpha', 'isdigit', 'isalnum', 'isspace', 'isupper', 'islower', 'ispunct') and len(args) == 1 and not n.callee_in_root:
+                ch = self.c(args[0])
+                if ch == '': return False
+                return {'isalpha': ch.isalpha, 'isdigit': ch.isdigit, 'isalnum': ch.isalnum, 'isspace': ch.isspace, 'isupper': ch.isupper, 'islower': ch.islower,
+                        'ispunct': (lambda: (not ch.isalnum()) and (not ch.isspace()) and ch.isprintable())}[base]() and ord(ch) < 128
             if base in ('starts_with', 'ends_with') and obj is not None:
                 s = self.s(obj); t = self.sc(args[0]); return s.startswith(t) if base == 'starts_with' else s.endswith(t)
             fr = self.call_bool(n)
@@ -162,7 +167,6 @@ class StrEval:
         if len(ts) != 1: return None
         t = ts[0]
         rets = [x for x in t.nodes() if x.k == 'return']
-        if len(rets) != 1 or rets[0].n('sub') is None: raise Unsupported(f'helper {t.name} has {len(rets)} returns')
         env = {}
         args = [a for a in n.ns('args') if a is not None]
         for p, a in zip(t.d['params'], args): env[p['decl']] = self.sc(a)
@@ -171,4 +175,28 @@ class StrEval:
         if obj is not None:
             try: sub.env['field:m_path'] = self.s(obj)
             except Unsupported: pass
-        return sub.b(rets[0].n('sub'))
+        if len(rets) == 1 and rets[0].n('sub') is not None and t.body is not None and len([x for x in t.body.ns('stmts') if x is not None]) == 1:
+            return sub.b(rets[0].n('sub'))
+        # guard / return table: { if (c) return e; … return e; }  (declarations of const locals are bound on the way)
+        if t.body is None: raise Unsupported(f'helper {t.name} has no body')
+        for st in t.body.ns('stmts'):
+            if st is None: continue
+            if st.k == 'if':
+                c = sub.b(st.n('c'))
+                br = st.n('t') if c else st.n('f')
+                if br is None: continue
+                r = [x for x in br.walk() if x.k == 'return']
+                if not r: raise Unsupported('branch without return')
+                return sub.b(r[0].n('sub'))
+            if st.k == 'return': return sub.b(st.n('sub'))
+            if st.k == 'decl':
+                for v in st.vars:
+                    if not v.get('init'): raise Unsupported(f'uninitialised local {v["name"]}')
+                    init = Node(t.tu, v['init'])
+                    for f_ in (sub.b, sub.s, sub.i, sub.c):
+                        try: sub.env[v['decl']] = f_(init); break
+                        except Unsupported: continue
+                    else: raise Unsupported(f'local {v["name"]}')
+                continue
+            raise Unsupported(f'statement {st.k} in helper {t.name}')
+        raise Unsupported(f'helper {t.name}: no return reached')
